@@ -9,7 +9,20 @@
    d < tsize from its home slot [hash k mod tsize] with no LH_EMPTY slot at a smaller
    offset.  [abs t] = the (key, value) pairs along the chain from head.
    Every theorem quantifies over the key type, its equality, the value type and the
-   HASH FUNCTION: colliding hashes, either string hash and every seed are instances. *)
+   HASH FUNCTION: colliding hashes, either string hash and every seed are instances.
+
+   What the theorems assume of the hash is exactly its type, [hash : key -> Z]: the hash of
+   a key is a FUNCTION OF THE KEY, i.e. (keys of objects being NUL-terminated byte strings
+   compared by strcmp) of its byte sequence - never of the address, alignment or buffer the
+   caller's copy of the text happens to live in, and the same for the caller's pointer
+   and for the strdup'ed copy that is rehashed on growth.  Nothing else is assumed (no
+   distribution, no injectivity).  For the C functions lh_char_hash (lookup3 hashlittle,
+   whose read strategy depends on the pointer's alignment) and the perl-like hash this
+   assumption is validated on every run: stream H evaluates the table's hash_fn on the
+   same bytes at all 8 byte offsets of an 8-aligned base and on a heap duplicate, and in
+   stream B every add / replace / get / delete / lookup passes its own copy of the key text
+   at a scripted offset, key lengths sweeping 0..40 (every residue modulo lookup3's 12-byte
+   block) with pairwise distinct bytes. *)
 From JC Require Import Base LhModel LhProofs.
 Local Open Scope Z_scope.
 
